@@ -110,6 +110,7 @@ func TestVerifReplay(t *testing.T) {
 	if f == nil {
 		t.Fatalf("VERIF-NOHARNESS %%s", name)
 	}
+	defer verifCleanup()
 	defer func() {
 		if r := recover(); r != nil {
 			if _, ok := r.(verifAssumeFailed); ok {
@@ -129,7 +130,8 @@ func TestVerifReplay(t *testing.T) {
 class NativeReplayer:
     """Builds one native test binary for a package + harness files and replays assignments."""
 
-    def __init__(self, module_dir, pkgname, harness_paths, tags=None):
+    def __init__(self, module_dir, pkgname, harness_paths, whole_program=False):
+        self.whole_program = whole_program
         self.module_dir, self.pkgname = module_dir, pkgname
         self.dir = tempfile.mkdtemp(prefix="replay_", dir=scratch())
         self.bin = os.path.join(self.dir, "replay.test")
@@ -167,11 +169,28 @@ class NativeReplayer:
         self.built = r.returncode == 0 and os.path.exists(self.bin)
         return self.built
 
+    def build_binary(self):
+        """Native binary of the package under test (for whole-program harnesses: VERIF_BIN)."""
+        out = os.path.join(self.dir, "target.bin")
+        if os.path.exists(out):
+            return out
+        r = subprocess.run(["go", "build", "-modfile", modfile_copy(self.module_dir), "-o", out, "."],
+                           cwd=self.module_dir, env=GOENV, capture_output=True, text=True)
+        if r.returncode != 0:
+            self.build_log += r.stdout + r.stderr
+            return None
+        return out
+
     def run(self, harness, replay_path, timeout=60, env=None, cwd=None):
         """Returns (outcome, detail): ok | assert | panic | assume | timeout | fatal | builderror"""
         if not self.build():
             return "builderror", self.build_log[-2000:]
         e = dict(os.environ, VERIF_HARNESS=harness, VERIF_REPLAY=replay_path)
+        if self.whole_program:
+            b = self.build_binary()
+            if not b:
+                return "builderror", self.build_log[-2000:]
+            e["VERIF_BIN"] = b
         if env:
             e.update(env)
         try:
